@@ -2065,10 +2065,13 @@ impl DB {
                 match FileNameHandler::get_file_type_from_name(file.as_path()) {
                     Ok(file_type) => match file_type {
                         ParsedFileType::ManifestFile(manifest_file_num) => {
-                            // Keep current manifest as well as any newer manifests (which can
-                            // happen if there is an undiscovered race condition)
+                            // Keep only the current manifest. A manifest is always created under
+                            // the version set's manifest file number, so any other one is garbage.
+                            // That includes one with a larger number: an earlier incarnation
+                            // crashed after creating it but before switching `CURRENT` and this
+                            // incarnation went on with (reused) the older manifest.
                             if manifest_file_num
-                                < db_fields_guard.version_set.get_manifest_file_number()
+                                != db_fields_guard.version_set.get_manifest_file_number()
                             {
                                 log::debug!(
                                     "Marking manifest file {:?} for deletion.",
